@@ -424,7 +424,7 @@ class World:
                 if ex.decide(ex.equal(args[0], m.value, e.lineno), e.lineno):
                     return m
             raise _Raise('ValueError', e.lineno)
-        if pc.path in self.externs or pc.path in self.contracts:
+        if pc.path in self.externs or pc.path in self.contracts or pc.path in (getattr(ex.k, 'externs', None) or {}):
             return self.call_function(ex, pc.path, args, kwargs, e)
         raise Unsupported('construction of %s' % pc.path)
 
